@@ -17,7 +17,7 @@ for pid in allids:
         "evidence_file": "/verif/evidence/%s.json" % pid,
         "replay_cmd_template": "./check %s --replay {path}" % pid,
         "engine": "lean4-model+correspondence",
-        "level_claimed": {"category": "proof", "text": meta["text"], "design_ref": meta.get("design_ref", "DESIGN.md section 8 (%s)" % pid)},
+        "level_claimed": {"category": "proof", "text": meta["text"], "design_ref": meta.get("design_ref", "DESIGN.md section 8 (%s: plan) and section 13 (as built, findings, seeded changes)" % pid)},
         "level_note": meta["note"],
         "technique": meta["technique"],
     })
